@@ -13,7 +13,9 @@ class Crate(object):
         self.config = "%s/%s" % (config, profile)
 
     def evaluator(self, **kw):
-        return Evaluator(self.facts, **kw)
+        ev = Evaluator(self.facts, **kw)
+        ev.neutral_crates |= getattr(self, "neutral_crates", set())
+        return ev
 
     def ty_by_name(self, s):
         for i, t in enumerate(self.tys):
